@@ -110,6 +110,8 @@ def model(prog):
                 break
     if tau is not None and kind == "ok" and tau > now:
         leftovers.append(tau)  # the stop request itself is still scheduled when the test ends
+    if prog.get("slow_work") and kind == "ok" and prog["slow_work"][0] > now:
+        leftovers.append(prog["slow_work"][0])   # that call, too, is still scheduled when the test ends
     if kind == "ok" and any(t > now for t in leftovers):
         dirty = True
     # zero-delay work scheduled in the final synchronous burst is still pending when the reactor
@@ -134,7 +136,15 @@ def build_case(prog, reactor, stagelog):
     def behave(case, name, b):
         stagelog.append(("enter", name, reactor.seconds()))
         if name == "setUp" and prog.get("stop_at") is not None:
-            reactor.callLater(prog["stop_at"], lambda: reactor.stop())
+            def stopper():
+                # (optionally after slow synchronous work: the clock moves on, nothing else runs meanwhile)
+                reactor.rightNow += prog.get("slow_stop", 0)
+                reactor.stop()
+            reactor.callLater(prog["stop_at"], stopper)
+        if name == "setUp" and prog.get("slow_work"):
+            def slow(amount=prog["slow_work"][1]):
+                reactor.rightNow += amount
+            reactor.callLater(prog["slow_work"][0], slow)
         for x in b.get("do", []):
             if x == "logerr":
                 tlog.err(ValueError("logged-" + name))
@@ -448,6 +458,27 @@ def run(ctx):
                     n += 1
                     ctx.execute("history", {"progs": [make([(s1, b1), (s2, b2)], 2.0, None)]}, sample=(n % 307 == 0))
     ctx.note_space("double non-trivial behaviours: 10 stage pairs x 18 x 18 behaviours, timeout 2.0", n, not ctx.quick)
+    # slow synchronous work that straddles the timeout AND the instant the test's Deferred fires (both
+    # calls become due in one reactor pass, in time order), or that precedes an interrupt
+    n = 0
+    for runner in ("plain", "broken"):
+        for end in ("fire_at", "fail_at"):
+            for tf, T in ((1.5, 1.0), (0.5, 1.0), (1.5, 2.0), (2.5, 2.0)):
+                for tau_w, amount in ((0.25, 0.5), (0.25, 3.0), (0.75, 3.0)):
+                    for slot in ("setUp", "test", "tearDown", "cleanup0"):
+                        if ctx.mine():
+                            n += 1
+                            p = make([(slot, {"end": end, "arg": tf})], T, None, runner)
+                            p["slow_work"] = [tau_w, amount]
+                            ctx.execute("history", {"progs": [p]})
+                for tau, amount in ((0.25, 0.0), (0.25, 3.0), (0.75, 3.0), (0.25, 0.5)):
+                    if ctx.mine():
+                        n += 1
+                        p = make([("test", {"end": end, "arg": tf})], T, tau, runner)
+                        p["slow_stop"] = amount
+                        ctx.execute("history", {"progs": [p]})
+    ctx.note_space("slow synchronous work straddling timeout and firing instant / preceding an interrupt: 2 runners x "
+                   "2 endings x 4 (delay, timeout) pairs x (3 x 4 stages + 4 interrupts)", n)
     # two-test histories and random programs
     ctx.notes["random_cases"] = True
 
